@@ -1264,3 +1264,184 @@ def build_T9n(tree):
 
 TARGETS['T9m'] = {'file': 'volume.py', 'build': build_T9m}
 TARGETS['T9n'] = {'file': 'volume.py', 'build': build_T9n}
+
+
+# ---------------------------------------------------------------------------------------------------------------------
+# round 2: argument handling of swap / flip / permute / pad, evaluated on enumerated small domains (T9o)
+def _compile_method(tree, qual, extra_ns):
+    fn = ast.parse(ast.unparse(find_func(tree, qual))).body[0]
+    fn.returns = None
+    fn.decorator_list = []
+    for arg in fn.args.args + fn.args.kwonlyargs:
+        arg.annotation = None
+    mod = ast.Module(body=[fn], type_ignores=[])
+    ast.fix_missing_locations(mod)
+    ns = dict(extra_ns)
+    exec(compile(mod, f'<{qual}>', 'exec'), ns)   # noqa: S102  (the current source, on enumerated arguments)
+    return ns[fn.name], find_func(tree, qual)
+
+
+def _ek(e):
+    return {'ValueError': 'value', 'TypeError': 'type', 'IndexError': 'index', 'RuntimeError': 'runtime'}.get(type(e).__name__, 'other')
+
+
+def _il(xs):
+    return '[' + ', '.join(str(int(x)) for x in xs) + ']'
+
+
+def _chunked_table(name, typ, rows, doc, size=40):
+    """a long literal list as the concatenation of short ones (Lean elaborates list literals super-linearly)"""
+    from py2lean import lean_table
+    parts, names = [], []
+    for k in range(0, max(len(rows), 1), size):
+        nm = f'{name}{k // size}'
+        names.append(nm)
+        parts.append(lean_table(nm, typ, rows[k:k + size]))
+    parts.append((f'/-- {doc} -/\n' if doc else '') + f'def {name} : {typ} :=\n  ' + ' ++ '.join(names))
+    return '\n\n'.join(parts)
+
+
+def build_T9o(tree):
+    """`swap_spatial_axes`, `flip_spatial`, `_permute_affine` (validation) and `_prepare_pad_width`: the current source run
+    on every argument of a small enumerated domain; what it hands on (or the kind of error) as Lean tables."""
+    import itertools
+    from collections.abc import Sequence
+    import operator
+    import numpy as np
+    from py2lean import lean_table
+
+    class Stub:
+        def __init__(self):
+            self.got = None
+            self.affine = 'AFFINE'
+            self._affine = 'AFFINE'
+            self.spatial_shape = (2, 3, 5)
+
+        def permute_spatial_axes(self, p):
+            self.got = ('permute', list(p))
+            return 'RESULT'
+
+        def __getitem__(self, idx):
+            self.got = ('getitem', idx)
+            return 'RESULT'
+    # ---- swap_spatial_axes
+    swap, swap_src = _compile_method(tree, '_VolumeBase.swap_spatial_axes', {})
+    rows = []
+    for a in range(-1, 4):
+        for b in range(-1, 4):
+            st = Stub()
+            try:
+                res = swap(st, a, b)
+                if res != 'RESULT' or st.got is None or st.got[0] != 'permute':
+                    raise Unsupported(f'swap_spatial_axes({a}, {b}) no longer returns self.permute_spatial_axes(...)')
+                rows.append(f'(({a}, {b}), .ok {_il(st.got[1])})')
+            except Unsupported:
+                raise
+            except Exception as e:  # noqa: BLE001
+                rows.append(f'(({a}, {b}), .error .{_ek(e)})')
+    t1 = lean_table('swapTable', 'List ((Int × Int) × Except ErrKind (List Int))', rows,
+                    '`swap_spatial_axes(a, b)` for a, b in -1..3: the permutation handed to `permute_spatial_axes`, or the error')
+    # ---- flip_spatial
+    flip, flip_src = _compile_method(tree, '_VolumeBase.flip_spatial', {})
+    rows = []
+    dom = [[]] + [list(t) for ln in (1, 2, 3) for t in itertools.product(range(-1, 4), repeat=ln)] + \
+        [[0, 1, 2, 0], [0, 0, 1, 2], [2, 1, 0, 1], [0, 1, 2, 3], [1, 1, 1, 1]]
+    for axes in dom:
+        st = Stub()
+        try:
+            res = flip(st, list(axes))
+            if res != 'RESULT' or st.got is None or st.got[0] != 'getitem' or not isinstance(st.got[1], tuple) or len(st.got[1]) != 3:
+                raise Unsupported(f'flip_spatial({axes}) no longer returns self[<3 items>]')
+            flags = []
+            for it in st.got[1]:
+                if it == slice(-1, None, -1):
+                    flags.append('true')
+                elif it == slice(None):
+                    flags.append('false')
+                else:
+                    raise Unsupported(f'flip_spatial({axes}) indexes with {it}')
+            rows.append(f'({_il(axes)}, .ok [{", ".join(flags)}])')
+        except Unsupported:
+            raise
+        except Exception as e:  # noqa: BLE001
+            rows.append(f'({_il(axes)}, .error .{_ek(e)})')
+    # a bare int is the one-element list
+    for k in range(-1, 4):
+        a, b = Stub(), Stub()
+        ra = rb = None
+        try:
+            flip(a, k)
+            ra = a.got
+        except Exception as e:  # noqa: BLE001
+            ra = _ek(e)
+        try:
+            flip(b, [k])
+            rb = b.got
+        except Exception as e:  # noqa: BLE001
+            rb = _ek(e)
+        if ra != rb:
+            raise Unsupported(f'flip_spatial({k}) differs from flip_spatial([{k}])')
+    t2 = _chunked_table('flipTable', 'List (List Int × Except ErrKind (List Bool))', rows,
+                    '`flip_spatial(axes)` for every list over -1..3 of length 0..3 and some of length 4 (a bare int behaves as the one-element list, '
+                    'checked): per axis whether `slice(-1, None, -1)` (true) or `slice(None)` (false) is used, or the error')
+    # ---- _permute_affine: validation
+    perm, perm_src = _compile_method(tree, '_VolumeBase._permute_affine',
+                                     {'_transform_affine_matrix': lambda affine, shape, permute_indices: ('T', affine, tuple(shape), list(permute_indices))})
+    rows = []
+    for p in dom:
+        st = Stub()
+        try:
+            res = perm(st, list(p))
+            if res != ('T', 'AFFINE', (2, 3, 5), list(p)):
+                raise Unsupported(f'_permute_affine({p}) no longer forwards (self._affine, self.spatial_shape, indices) unchanged')
+            rows.append(_il(p))
+        except Unsupported:
+            raise
+        except ValueError:
+            pass
+        except Exception as e:  # noqa: BLE001
+            raise Unsupported(f'_permute_affine({p}) raised {type(e).__name__}: {e}')
+    t3 = lean_table('permuteAccepted', 'List (List Int)', rows,
+                    '`_permute_affine(indices)`: the lists over -1..3 of length 0..3 (and some of length 4) that pass the validation (the others raise '
+                    'ValueError); accepted ones are forwarded unchanged to `_transform_affine_matrix`')
+    # ---- _prepare_pad_width
+    ppw, ppw_src = _compile_method(tree, '_VolumeBase._prepare_pad_width',
+                                   {'np': np, 'operator': operator, 'Sequence': Sequence,
+                                    '_translate_affine_matrix': lambda aff, off: ('TR', aff, [int(x) for x in off])})
+    rows = []
+
+    def run(form, arg):
+        st = Stub()
+        try:
+            res = ppw(st, arg)
+            (tag, aff, off), full = res
+            if tag != 'TR' or aff != 'AFFINE' or len(full) != 3 or any(len(p) != 2 for p in full):
+                raise Unsupported(f'_prepare_pad_width({arg}) no longer returns (_translate_affine_matrix(self.affine, offset), 3 pairs)')
+            flat = [int(x) for p in full for x in p]
+            rows.append(f'({form}, .ok ({_il(flat)}, {_il(off)}))')
+        except Unsupported:
+            raise
+        except Exception as e:  # noqa: BLE001
+            rows.append(f'({form}, .error .{_ek(e)})')
+    for k in range(-2, 4):
+        run(f'PadW.int {k}' if k >= 0 else f'PadW.int ({k})', k)
+    for ln in range(0, 4):
+        for t in itertools.product([-1, 0, 1, 2], repeat=ln):
+            run(f'PadW.flat {_il(t)}', list(t))
+    pool = [[], [1], [-1], [0, 2]]
+    nested = [list(t) for ln in range(1, 5) for t in itertools.product(pool, repeat=ln)]
+    nested += [[[1, -1], [0, 0], [0, 0]], [[0, 0], [0, 0], [2, -1]], [[0, 1, 2], [0, 1, 2], [0, 1, 2]], [[1, 2], [3, 0], [0, 1]],
+               [[2], [0], [3]], [[0, 2], [1], [0, 2]], [[1], [0, 2], [0, 2]], [[0], [0], [-2]]]
+    run('PadW.nested []', [])
+    for t in nested:
+        run('PadW.nested [' + ', '.join(_il(x) for x in t) + ']', [list(x) for x in t])
+    t4 = ('/-- the forms of `pad_width` (mirror of the model\'s `PadWidth`, which is defined later) -/\n'
+          'inductive PadW\n  | int (w : Int)\n  | flat (ws : List Int)\n  | nested (ws : List (List Int))\nderiving DecidableEq, Repr\n\n'
+          + _chunked_table('padWidthTable', 'List (PadW × Except ErrKind (List Int × List Int))', rows,
+                       '`_prepare_pad_width(pad_width)` on ints -2..3, flat lists over -1..2 of length 0..3 and nested lists of 0..4 '
+                       'sublists from a pool (+ some more): ([before0, after0, before1, after1, before2, after2], origin offset handed to '
+                       '`_translate_affine_matrix`) or the error'))
+    return '\n\n'.join([t1, t2, t3, t4]), span_sha([swap_src, flip_src, perm_src, ppw_src])
+
+
+TARGETS['T9o'] = {'file': 'volume.py', 'build': build_T9o}
